@@ -62,7 +62,7 @@ macro_rules! vec_lvl {
                 ("k_decompose", 1) => { let mut v1 = vk(a[0])?; let mut v0 = Polyveck::default(); pv::k_decompose(&mut v1, &mut v0); ok(format!("{} {}", fmt_polys(&v1.vec), fmt_polys(&v0.vec))) }
                 ("k_make_hint", 2) => { let v0 = vk(a[0])?; let v1 = vk(a[1])?; let mut h = Polyveck::default(); let s = pv::k_make_hint(&mut h, &v0, &v1); ok(format!("{} {}", fmt_polys(&h.vec), s)) }
                 ("k_use_hint", 2) => { let mut x = vk(a[0])?; let h = vk(a[1])?; pv::k_use_hint(&mut x, &h); ok(fmt_polys(&x.vec)) }
-                ("k_pack_w1", 1) => { let v = vk(a[0])?; let mut r = vec![0u8; K * pp::POLYW1_PACKEDBYTES]; pv::k_pack_w1(&mut r, &v); ok(hex(&r)) }
+                ("k_pack_w1", 1) => { let v = vk(a[0])?; let mut r = vec![0xA5u8; K * pp::POLYW1_PACKEDBYTES]; pv::k_pack_w1(&mut r, &v); ok(hex(&r)) }
                 _ => None,
             }
         }
@@ -99,7 +99,7 @@ macro_rules! pack_set {
                 let mut r = Polyvecl::default(); for i in 0..L { r.vec[i] = v[i]; } Some(r)
             }
             match (f, a.len()) {
-                ("pack_pk", 2) => { let rho = unhex(a[0])?; let t1 = vk(a[1])?; let mut out = vec![0u8; pp::PUBLICKEYBYTES]; pk::pack_pk(&mut out, &rho, &t1); ok(hex(&out)) }
+                ("pack_pk", 2) => { let rho = unhex(a[0])?; let t1 = vk(a[1])?; let mut out = vec![0xA5u8; pp::PUBLICKEYBYTES]; pk::pack_pk(&mut out, &rho, &t1); ok(hex(&out)) }
                 ("unpack_pk", 1) => {
                     let b = unhex(a[0])?; let mut rho = [0u8; 32]; let mut t1 = Polyveck::default();
                     pk::unpack_pk(&mut rho, &mut t1, &b); ok(format!("{} {}", hex(&rho), fmt_polys(&t1.vec)))
@@ -107,7 +107,7 @@ macro_rules! pack_set {
                 ("pack_sk", 6) => {
                     let rho = unhex(a[0])?; let tr = unhex(a[1])?; let key = unhex(a[2])?;
                     let t0 = vk(a[3])?; let s1 = vl(a[4])?; let s2 = vk(a[5])?;
-                    let mut out = vec![0u8; pp::SECRETKEYBYTES];
+                    let mut out = vec![0xA5u8; pp::SECRETKEYBYTES];
                     pk::pack_sk(&mut out, &rho, &tr, &key, &t0, &s1, &s2); ok(hex(&out))
                 }
                 ("unpack_sk", 1) => {
@@ -119,7 +119,7 @@ macro_rules! pack_set {
                 }
                 ("pack_sig", 3) => {
                     let c = unhex(a[0])?; let z = vl(a[1])?; let h = vk(a[2])?;
-                    let mut out = vec![0u8; pp::SIGNBYTES];
+                    let mut out = vec![0xA5u8; pp::SIGNBYTES];
                     pk::pack_sig(&mut out, Some(&c), &z, &h); ok(hex(&out))
                 }
                 ("unpack_sig", 1) => {
